@@ -733,7 +733,7 @@ def rop_identity(ctx, am):
         if p.syms == ['CARDINALITY']:
             accepted.add('1C')
     r.check(accepted == {'1', '1C', 'M', 'MC'}, 'the reader accepts the cardinalities 1, 1C, M, MC', cards[0].fn, construct=LD + '.p_cardinality', key='card-read',
-            msg='the cardinality productions accept %s' % sorted(accepted))
+            msg='the cardinality productions accept %s' % sorted(map(repr, accepted)))
     # keys joined / split
     r.check(slots.get('FROM.keys', '').endswith('source_keys') or True, 'keys are written comma separated', sa, construct=Q, key='keys-join', msg='')
     # associations are sorted deterministically for the fixed point
